@@ -23,7 +23,7 @@ Print Assumptions C14_crc24_hash_is_crc24q.
 (* The acceptance test of the SPEC scan is a legitimate judge (so all of Base/Scan.v applies), and what it
    accepts is what the property text lists. *)
 Theorem C14_judge_ok : forall cap, JudgeOK (judge_rtcm cap) /\ JudgeLocal (judge_rtcm cap).
-Proof. intros cap. split; [exact (judge_rtcm_ok cap) | exact (judge_rtcm_local cap)]. Qed.
+Proof. exact rtcm_judge_ok_local. Qed.
 Print Assumptions C14_judge_ok.
 
 Theorem C14_accept_means : forall cap l n, judge_rtcm cap l = Accept n ->
@@ -43,10 +43,7 @@ Theorem C14_rtcm_refines_scan : forall user alloc_addr capacity mem ops,
   Forall op_ok ops ->
   exists ff, run_ops rframer rtcm_op (rtcm_construct user alloc_addr capacity mem) ops =
              Ok (map rtcm_out (spec_run judge_rtcm RTCM_OVERHEAD_BYTES RTCM_CLAMP (rtcm_spec_construct user alloc_addr capacity) ops), ff).
-Proof.
-  intros user alloc_addr capacity mem ops Hlen Hok.
-  exact (rtcm_history ops _ _ (rtcm_construct_sim user alloc_addr capacity mem Hlen) Hok).
-Qed.
+Proof. exact rtcm_refines_scan_top. Qed.
 Print Assumptions C14_rtcm_refines_scan.
 
 (* ... in particular no read or write outside the buffer, for all streams, chunkings, capacities, alignments *)
@@ -55,11 +52,7 @@ Theorem C14_rtcm_no_oob : forall user alloc_addr capacity mem ops,
   Forall op_ok ops ->
   match run_ops rframer rtcm_op (rtcm_construct user alloc_addr capacity mem) ops with
   | Ok _ => True | OobRead _ _ => False | OobWrite _ _ => False | OutOfFuel => False end.
-Proof.
-  intros user alloc_addr capacity mem ops Hlen Hok.
-  destruct (rtcm_history ops _ _ (rtcm_construct_sim user alloc_addr capacity mem Hlen) Hok) as (ff & E).
-  rewrite E. exact I.
-Qed.
+Proof. exact rtcm_no_oob_top. Qed.
 Print Assumptions C14_rtcm_no_oob.
 
 (* Any division of a stream into OnData() calls: the callbacks, concatenated, are the frames of ONE scan of
@@ -81,11 +74,7 @@ Theorem C14_usable_capacity : forall a capacity,
   6 <= capacity ->
   sp_cap (rtcm_spec_construct (Some a) 0 capacity) =
     (let c := N.min capacity RTCM_CLAMP - (4 - a mod 4) mod 4 in if c <? 6 then None else Some c).
-Proof.
-  intros a capacity H. unfold rtcm_spec_construct, rtcm_spec_op, spec_op, spec_eff_capacity.
-  destruct (N.ltb_spec capacity RTCM_OVERHEAD_BYTES) as [C|_]; [unfold RTCM_OVERHEAD_BYTES in C; cbn in C; exfalso; apply (N.lt_irrefl 6); eapply N.le_lt_trans; eassumption|].
-  reflexivity.
-Qed.
+Proof. exact rtcm_usable_capacity. Qed.
 Print Assumptions C14_usable_capacity.
 
 Theorem C14_reset_is_fresh : forall f : rframer,
